@@ -6,7 +6,7 @@ PROPS = json.loads(open(os.path.join(ROOT, 'scripts', 'manifest_props.json')).re
 ALL = ['C%02d' % i for i in range(1, 21)]
 checks = []
 for pid in ALL:
-    if pid not in PROPS['claimed']:
+    if pid not in PROPS['claimed'] or pid in PROPS.get('pending', []):
         continue
     c = PROPS['claimed'][pid]
     checks.append({
@@ -33,7 +33,7 @@ m = {
     'engines': PROPS['engines'],
     'checks': checks,
     'notes': PROPS['notes'],
-    'not_applicable': [{'property_id': p, 'reason': PROPS['not_applicable'].get(p, 'not claimed yet: model and correspondence engine under construction (see DESIGN.md section 9); no check registered')} for p in ALL if p not in PROPS['claimed']],
+    'not_applicable': [{'property_id': p, 'reason': PROPS['not_applicable'].get(p, 'not claimed yet: model and correspondence engine under construction (see DESIGN.md section 9); no check registered')} for p in ALL if p not in PROPS['claimed'] or p in PROPS.get('pending', [])],
 }
 json.dump(m, open(os.path.join(ROOT, 'MANIFEST.json'), 'w'), indent=1)
 print('MANIFEST.json:', len(checks), 'checks,', len(m['not_applicable']), 'not applicable')
